@@ -129,8 +129,15 @@ def facts_dir(config="main", repo=REPO, quiet=False):
         # keep the cache small: drop fact dirs other than the 16 most recent
         base = os.path.join(CACHE, "facts")
         ds = sorted((os.path.getmtime(os.path.join(base, d)), d) for d in os.listdir(base))
-        for _, d in ds[:-16]:
-            shutil.rmtree(os.path.join(base, d), ignore_errors=True)
+        if len(ds) > 16:
+            try:
+                keep = tree_hash(REPO)       # the facts of /repo's own tree are never evicted by scratch-copy runs
+            except OSError:
+                keep = None
+            for _, d in ds[:-16]:
+                if keep and d.startswith(keep):
+                    continue
+                shutil.rmtree(os.path.join(base, d), ignore_errors=True)
         if not quiet:
             print("[extract] done in %.1fs" % (time.time() - t0), file=sys.stderr)
         return out
